@@ -6,7 +6,7 @@
 From Coq Require Import ZArith NArith List Bool Arith.
 From GV Require Import Base.Result Base.Host Gen.Instr Model.Num Model.Value Model.Machine
   Model.CompileExpr Spec.Ast Spec.Eval
-  Proofs.C01.MachineFacts Proofs.C01.Fragment Proofs.C01.Main Proofs.C01.Witness Proofs.C17.HostOps.
+  Spec.Printer Proofs.C01.MachineFacts Proofs.C01.Fragment Proofs.C01.Stages Proofs.C01.Main Proofs.C01.StageThms Proofs.C01.Witness Proofs.C17.HostOps.
 Import ListNotations.
 
 (* One Resolve step, identifier found in the current input value: the value is
@@ -43,18 +43,20 @@ Theorem C17_external_op : forall hstate host p (i : instruction) k arg pcx sg vs
 Proof. exact apply_external. Qed.
 Print Assumptions C17_external_op.
 
-(* Whole programs of the proved fragment (C01 stages 1-3): the machine's
-   observable host trace is the reference evaluator's, call for call, and the
-   final host state is the evaluator's. *)
+(* Whole programs, every construct of the core language (C01 stages 1-4): the
+   machine's observable host trace is the reference evaluator's, call for call
+   (identifier occurrences in evaluation order, skipped branches contribute
+   nothing, loops contribute once per iteration), and the final host state is
+   the evaluator's. *)
 Theorem C17_program : forall sym_hash hstate host, declines_defer hstate host ->
   forall e vin h n v h' t,
-  frag e = true -> shape_ok e = true -> seq_ok true e = true ->
+  printable e = true -> known_K1 e = false -> known_K2 e = false -> labels_ok e = true ->
   eval_prog sym_hash hstate host n e vin h = ODone v (h', t) ->
   exists s0 fuel steps sfin,
     initial hstate (compile_prog sym_hash e) 0 vin h = Some s0 /\
     run hstate host fuel (compile_prog sym_hash e) s0 = REnd hstate sfin steps /\
     current_value hstate sfin = Some v /\ hs sfin = h' /\ observable (tr sfin) = t.
-Proof. exact stage3_program. Qed.
+Proof. exact all_programs. Qed.
 Print Assumptions C17_program.
 
 (* non-vacuity: a program whose identifier is answered by the host, twice *)
